@@ -151,6 +151,44 @@ theorem loop_failure_sleeps (rc : BitVec 64) (rest : List Bool) :
     (runLoop rc (true :: rest)).head? = some (some rc) := by
   simp [runLoop, agent_pollRetryStep, Id.run, pure]
 
+/-- one outcome per list call: the loop accounts for every iteration of any history -/
+theorem loop_length (rc : BitVec 64) (fs : List Bool) : (runLoop rc fs).length = fs.length := by
+  induction fs generalizing rc with
+  | nil => simp [runLoop]
+  | cons f fs ih => simp [runLoop, ih]
+
+/-- For every history of list-call outcomes and every starting counter: the loop sleeps in
+    exactly the iterations whose list call failed — it never spins through a failure without
+    a delay, and it never delays after a success. -/
+theorem loop_sleeps_iff_failed (rc : BitVec 64) (fs : List Bool) : (runLoop rc fs).map Option.isSome = fs := by
+  induction fs generalizing rc with
+  | nil => simp [runLoop]
+  | cons f fs ih => cases f <;> simp [runLoop, agent_pollRetryStep, Id.run, pure, ih]
+
+theorem runLoop_ne_nil (rc : BitVec 64) (fs : List Bool) (h : fs ≠ []) : runLoop rc fs ≠ [] := by
+  intro h0; have := loop_length rc fs; rw [h0] at this
+  cases fs with
+  | nil => exact h rfl
+  | cons _ _ => simp at this
+
+/-- `loop_kth_failure` after an arbitrary history: whatever happened before (any outcomes, any
+    counter value), once a list call succeeds the (k+1)-th consecutive failure after it sleeps
+    with retry count k — the back-off restarts from about 1 ms and depends only on the current
+    run of failures. -/
+theorem loop_streak_after_any_history (rc : BitVec 64) (pre : List Bool) (k : Nat) (hk : k < 2 ^ 64) :
+    (runLoop rc (pre ++ false :: List.replicate (k + 1) true)).getLast? = some (some (BitVec.ofNat 64 k)) := by
+  induction pre generalizing rc with
+  | nil =>
+    have h1 : runLoop rc (false :: List.replicate (k + 1) true) = none :: runLoop 0#64 (List.replicate (k + 1) true) := by
+      simp [runLoop, agent_pollRetryStep, Id.run, pure]
+    rw [List.nil_append, h1, List.getLast?_cons_of_ne_nil (runLoop_ne_nil _ _ (by simp))]
+    exact loop_kth_failure k hk
+  | cons f pre ih =>
+    rw [List.cons_append, runLoop]
+    simp only []
+    rw [List.getLast?_cons_of_ne_nil (runLoop_ne_nil _ _ (by simp))]
+    exact ih _
+
 /-- the list call itself happens once per loop iteration and the sleep lies on the failure
     branch only (T3 skeleton of `pollForNewRequests`) -/
 theorem loop_shape :
@@ -180,5 +218,6 @@ example : (utils_backoffTarget 12#64).toNat = 3000000000 := by decide
 example : (utils_backoffTarget 64#64).toNat = 3000000000 := by decide
 example : (utils_backoffTarget (BitVec.ofNat 64 (2^64 - 1))).toNat = 3000000000 := by decide
 example : delay 3#64 1 2 = 8000000 := by decide
+example : runLoop 5#64 [true, false, true, true] = [some 5#64, none, some 0#64, some 1#64] := by decide
 
 end InvProxy.C08
